@@ -1,7 +1,6 @@
 """C33 worker: every module case is built three times from the same cdef and C source —
 ffi.verify() with the CPython engine, ffi.verify(force_generic_engine=True), and
 set_source()/compile() — and probed with one and the same probe function."""
-import multiprocessing
 import os
 import sys
 import traceback
@@ -120,13 +119,10 @@ def one(task):
 
 def main(payload):
     cases = payload["cases"]
-    devnull = os.open(os.devnull, os.O_WRONLY)
-    os.dup2(devnull, 2)
     tasks = [(m, r) for m in cases for r in ROUTES]
     mods = [(m,) + tuple(W.module_texts(m)[i] for i in (0, 2)) for m in cases]
     allfacts, err = W.run_facts(mods, os.path.join(os.environ["VERIF_WORK"], "facts_%d" % os.getpid()))
-    with multiprocessing.Pool(min(int(payload.get("jobs", 6)), len(tasks))) as pool:
-        res = pool.map(one, tasks, chunksize=1)
+    res = W.run_tasks(os.path.abspath(__file__), tasks, int(payload.get("jobs", 6)))
     out = []
     for i, m in enumerate(cases):
         out.append(dict(name=m["name"], facts=(allfacts or {}).get(m["name"], {}), facts_error=err,
@@ -135,5 +131,12 @@ def main(payload):
 
 
 if __name__ == "__main__":
-    from lib.vlib import worker_main
-    worker_main(main)
+    import json
+    devnull = os.open(os.devnull, os.O_WRONLY)
+    os.dup2(devnull, 2)
+    if len(sys.argv) == 3 and sys.argv[1] == "--task":
+        res = one(json.load(open(sys.argv[2])))
+        sys.stdout.write("\nRESULT " + json.dumps(res) + "\n")
+    else:
+        from lib.vlib import worker_main
+        worker_main(main)
